@@ -1972,6 +1972,9 @@ def _unwrap_default(e):
     return e, None, None
 
 
+_MULT_BIND = {}     # loop variable -> constant of the row of a constant-tuple loop currently analysed
+
+
 def _mult_scaler(ctx, name, at):
     """Resolve a multiplier scaler local: (table, index expr key, meta key, default, idiom, def stmt)."""
     ds = ctx.defs(at, name)
@@ -2017,6 +2020,8 @@ def _mult_scaler(ctx, name, at):
     if len(chain) != 2:
         return None
     T = astx.const_str(chain[0])
+    if T is None and isinstance(chain[0], ast.Name) and chain[0].id in _MULT_BIND:
+        T = astx.const_str(_MULT_BIND[chain[0].id])
     if T is None:
         return None
     return T, chain[1], key, dflt, idiom, d.ast
@@ -2047,11 +2052,25 @@ class MultFn:
         if len(ps) != 3:
             raise AnalysisError(f'{self.fn.ident}: expected (self, desvar_multipliers, con_multipliers)')
         self.table_of = {ps[1]: 'design_var', ps[2]: 'constraint'}
-        self.loops = []
+        self.loops = []      # (inner loop, role parameter, name used in the code, {loop var: constant expr})
         for st in astx.walk_stmts(self.fn.node.body):
-            if isinstance(st, ast.For) and isinstance(st.iter, ast.Call) and astx.callee_attr(st.iter) == 'items' \
-                    and astx.path(st.iter.func.value) in self.table_of:
-                self.loops.append((st, astx.path(st.iter.func.value)))
+            if isinstance(st, ast.For) and isinstance(st.iter, ast.Call) and astx.callee_attr(st.iter) == 'items':
+                recv = astx.path(st.iter.func.value)
+                if recv in self.table_of:
+                    self.loops.append((st, recv, recv, {}))
+                    continue
+                # `for key, mults in ((K1, P1), (K2, P2)):` -- one shared body instead of repeated statements
+                for a in astx.ancestors(st):
+                    if isinstance(a, ast.For) and isinstance(a.iter, (ast.Tuple, ast.List)) and \
+                            isinstance(a.target, (ast.Tuple, ast.List)) and \
+                            all(isinstance(e, ast.Name) for e in a.target.elts) and \
+                            all(isinstance(e, (ast.Tuple, ast.List)) and len(e.elts) == len(a.target.elts) for e in a.iter.elts):
+                        tn = [e.id for e in a.target.elts]
+                        if recv in tn:
+                            for row in a.iter.elts:
+                                val = row.elts[tn.index(recv)]
+                                if isinstance(val, ast.Name) and val.id in self.table_of:
+                                    self.loops.append((st, val.id, recv, {n_: v_ for n_, v_ in zip(tn, row.elts)}))
 
 
 @rule('C20.mult', floor=3)
@@ -2060,7 +2079,9 @@ def mult(repo, out):
     mf = MultFn(repo)
     fn, ctx = mf.fn, mf.ctx
     seen = set()
-    for lp, P in mf.loops:
+    for lp, P, PN, bnd in mf.loops:
+        _MULT_BIND.clear()
+        _MULT_BIND.update(bnd)
         want_T = mf.table_of[P]
         if not (isinstance(lp.target, ast.Tuple) and len(lp.target.elts) == 2 and
                 all(isinstance(e, ast.Name) for e in lp.target.elts)):
@@ -2072,7 +2093,7 @@ def mult(repo, out):
             tg = astx.assigned_targets(st) if isinstance(st, (ast.Assign, ast.AugAssign)) else []
             for t in tg:
                 if isinstance(t, ast.Name) and t.id == mv or isinstance(t, ast.Subscript) and (
-                        astx.path(t.value) == mv or astx.path(t.value) == P):
+                        astx.path(t.value) == mv or astx.path(t.value) == PN):
                     ups.append(st)
         if len(ups) == 2 and isinstance(ups[0], ast.Assign) and isinstance(ups[0].targets[0], ast.Name) and \
                 isinstance(ups[1], ast.Assign) and isinstance(ups[1].targets[0], ast.Subscript):
@@ -2103,7 +2124,7 @@ def mult(repo, out):
             # P[name] = mult * f  /  mult[:] = mult * f
             t = st.targets[0]
             whole = astx.path(t.value) == mv and _whole(t.slice)
-            keyed = astx.path(t.value) == P and isinstance(t.slice, ast.Name) and t.slice.id == nm
+            keyed = astx.path(t.value) == PN and isinstance(t.slice, ast.Name) and t.slice.id == nm
             f2 = _factor(st.value)
             if (whole or keyed) and f2 is not None and f2.get(mv) == 1:
                 inplace = True
@@ -2223,25 +2244,34 @@ def mult_array(repo, out):
         mk = meta_key(ctx, x, ctx.node(st))
         if mk is None or mk[0] != 'total_scaler':
             continue
-        r = _mult_scaler(ctx, st.targets[0].id, [m for m in ctx.g.normal_succ(ctx.node(st))][0]) \
-            if ctx.g.normal_succ(ctx.node(st)) else None
-        T = r[0] if r else None
-        if T is None:
+        binds = [bnd for lp, P, PN, bnd in mf.loops if any(a_ is lp for a_ in astx.ancestors(st))] or [{}]
+        Ts = []
+        for bnd in binds:
+            _MULT_BIND.clear()
+            _MULT_BIND.update(bnd)
+            r = _mult_scaler(ctx, st.targets[0].id, [m for m in ctx.g.normal_succ(ctx.node(st))][0]) \
+                if ctx.g.normal_succ(ctx.node(st)) else None
+            Ts.append(r[0] if r else None)
+        _MULT_BIND.clear()
+        if None in Ts:
             out.unsure(fn, st, 'cannot see which table the defaulted scaler comes from')
             continue
-        if idiom.startswith('truth') and T in ('design_var', 'constraint'):
-            out.bad(fn, st, f"`{astx.src(st.value)}` takes the truth value of the {T} total_scaler; for a vector variable "
-                    'with an array ref/scaler that is an ndarray and `or` raises ValueError (ambiguous truth value): '
-                    'multipliers in model units cannot be computed for array scalings. Use `is None`.',
-                    key=f'truthiness-{T}' + ('' if idiom == 'truth-or' else '-' + idiom))
-        elif idiom.startswith('truth'):
-            out.ok(fn, st, 'truth-value default on the objective scaler (objectives are scalar: float or size-1 array)')
-        else:
-            out.ok(fn, st, f'{T} scaler defaulted through an `is None` test')
-        done.add(T)
+        done.update(Ts)
+        for T in sorted(set(Ts)):     # one obligation per table the statement serves
+            if idiom.startswith('truth') and T in ('design_var', 'constraint'):
+                out.bad(fn, st, f"`{astx.src(st.value)}` takes the truth value of the {T} total_scaler; for a vector variable "
+                        'with an array ref/scaler that is an ndarray and `or` raises ValueError (ambiguous truth value): '
+                        'multipliers in model units cannot be computed for array scalings. Use `is None`.',
+                        key=f'truthiness-{T}' + ('' if idiom == 'truth-or' else '-' + idiom))
+            elif idiom.startswith('truth'):
+                out.ok(fn, st, 'truth-value default on the objective scaler (objectives are scalar: float or size-1 array)')
+            else:
+                out.ok(fn, st, f'{T} scaler defaulted through an `is None` test')
     # `s = meta[...]; if <test on s>: s = 1.0` form, found through the operands of the multiplier updates
     seen_dst = set()
-    for lp, P in mf.loops:
+    for lp, P, PN, bnd in mf.loops:
+        _MULT_BIND.clear()
+        _MULT_BIND.update(bnd)
         cands = {t.id for st0 in astx.walk_stmts(lp.body) if isinstance(st0, ast.Assign) and const_num(st0.value) is not None
                  for t in st0.targets if isinstance(t, ast.Name)}
         for st in astx.walk_stmts(lp.body):
@@ -4107,6 +4137,20 @@ _MDV = ("                scaler = self._var_meta['design_var'][name]['total_scal
         "                if scaler is None:\n                    scaler = 1.0\n")
 _MCON = _MDV.replace("'design_var'", "'constraint'")
 
+_ML_OLD = ("        if desvar_multipliers:\n            for name, mult in desvar_multipliers.items():\n"
+           "                # Get the design variable scaler from cached combined scalers\n" + _MDV +
+           "                mult *= scaler / obj_scaler\n\n"
+           "        if con_multipliers:\n            for name, mult in con_multipliers.items():\n"
+           "                # Get the constraint scaler from cached combined scalers\n" + _MCON +
+           "                mult *= scaler / obj_scaler\n")
+_ML_NEW = ("        for voi_type, multipliers in (('design_var', desvar_multipliers),\n"
+           "                                      ('constraint', con_multipliers)):\n"
+           "            if not multipliers:\n                continue\n"
+           "            voi_meta = self._var_meta[voi_type]\n"
+           "            for name, mult in multipliers.items():\n"
+           "                total_scaler = voi_meta[name]['total_scaler']\n"
+           "                factor = total_scaler if total_scaler is not None else 1.0\n"
+           "                mult *= factor / obj_scaler\n")
 selftest(
     'C20',
     # ---- mirror
@@ -4501,6 +4545,19 @@ selftest(
            also=[_UA_EDITS[0], (TOTJAC, _UA_EDITS[1][1], _UA_EDITS[1][2].replace('desvar_scalers.get(in_name)', 'resp_scalers.get(in_name)'))]),
     Mutant('unit-table-aliases-early-return-and', TOTJAC, _UA_OLD1, _UA_NEW1.replace('resp_scalers or desvar_scalers', 'resp_scalers and desvar_scalers'),
            'C20.gates', also=_UA_EDITS),
+    # ---- fourth robustness round: one shared loop over a constant tuple of (table, argument) rows
+    Twin('twin-mult-constant-tuple-loop', AUTO, _ML_OLD, _ML_NEW),
+    Mutant('mult-tuple-loop-rows-crossed', AUTO, _ML_OLD,
+           _ML_NEW.replace("(('design_var', desvar_multipliers),", "(('constraint', desvar_multipliers),")
+                  .replace("('constraint', con_multipliers)):", "('design_var', con_multipliers)):"), 'C20.mult'),
+    Mutant('mult-tuple-loop-inverted-factor', AUTO, _ML_OLD, _ML_NEW.replace('mult *= factor / obj_scaler', 'mult *= obj_scaler / factor'), 'C20.mult'),
+    Mutant('mult-tuple-loop-rebind', AUTO, _ML_OLD, _ML_NEW.replace('mult *= factor / obj_scaler', 'mult = mult * factor / obj_scaler'), 'C20.mult'),
+    Mutant('mult-tuple-loop-truth-default', AUTO, _ML_OLD, _ML_NEW.replace('total_scaler if total_scaler is not None else 1.0', 'total_scaler if total_scaler else 1.0'),
+           'C20.mult-array'),
+    Mutant('mult-tuple-loop-in-place-on-metadata', AUTO, _ML_OLD,
+           _ML_NEW.replace("                factor = total_scaler if total_scaler is not None else 1.0\n                mult *= factor / obj_scaler\n",
+                           "                factor = total_scaler if total_scaler is not None else 1.0\n                factor /= obj_scaler\n                mult *= factor\n"),
+           'C20.meta-readonly'),
     # ---- twins
     Twin('twin-order-extra-guarded-debug', TOTJAC, "                self._apply_unit_scaling(self.J_dict)\n\n                # Driver scaling.",
          "                if debug_print:\n                    print('scaling', flush=True)\n                self._apply_unit_scaling(self.J_dict)\n\n                # Driver scaling."),
